@@ -16,8 +16,32 @@
 (*                                 or too few arguments                    *)
 (*   [err |-> FALSE, out |-> bytes] otherwise (out may be UnmStr: outside  *)
 (*                                 what the statement and C pin down).     *)
+(*                                                                         *)
+(* The KIND of an argument is part of the model ("the argument converted   *)
+(* the AWK way"): an argument is a value of Values.tla, i.e. a number, a   *)
+(* string (constant / concatenation), or a strnum -- text that came from   *)
+(* INPUT (a field, a getline variable, a split() element, a -v variable).  *)
+(* A strnum that looks numeric (WholeParse) IS a number: %c gives the      *)
+(* character with that code, d i o x X u e f g convert its value; one that *)
+(* does not look numeric is a string: %c gives its first character, the    *)
+(* numeric conversions use its longest numeric prefix.  %s of any strnum   *)
+(* keeps the text as it is.  Whether hexadecimal, inf/nan and NBSP-padded  *)
+(* texts are numbers is left open by POSIX: every operator takes the       *)
+(* dialect dl (Values.Dialects); FormatD is Format under a given dialect,  *)
+(* and the conformance check accepts the result of ANY dialect on an       *)
+(* argument on which they differ (OpenArg).                                *)
+(*                                                                         *)
+(* print: PrintLine(args, ofmt, mode, ofs, ors) -- every argument that is  *)
+(* a number is written as an exact integer if it is integral (int64) and   *)
+(* through the format text OFMT otherwise (NumToText: the ONE float        *)
+(* directive of OFMT applied the C way, so OFMT = "%g" means %.6g);        *)
+(* strings, strnums and the uninitialised value are written as their text. *)
+(* CONVFMT does not occur in the definition: that is the statement.  The   *)
+(* output MODE ("default": joined with OFS, ended by ORS; "csv" / "tsv":   *)
+(* Csv.CsvEncode with , / TAB and a newline) only decides how the texts    *)
+(* are joined, never how a number becomes text.                            *)
 (***************************************************************************)
-EXTENDS Values
+EXTENDS Values, Csv
 
 FlagChars == {MINUS, PLUS, SP, HASH, D0}
 IntVerbs   == {c_d, c_i}
@@ -96,14 +120,15 @@ ToBase(d, base) == IF d = <<>> THEN <<>> ELSE LET q == DivSmall(d, base) IN ToBa
 BaseChars(ds, upper) == [j \in 1..Len(ds) |-> IF ds[j] < 10 THEN 48 + ds[j] ELSE (IF upper THEN 55 ELSE 87) + ds[j]]
 
 \* the argument converted the AWK way for an integer conversion: truncated toward zero; must fit int64
-IntArg(v) ==
-  LET n == Trunc(ToNum(v, GoawkDialect))
+IntArgD(v, dl) ==
+  LET n == Trunc(ToNum(v, dl))
   IN IF n.t = "fin" /\ InInt64(n) /\ n.ex THEN n ELSE Unm
+IntArg(v) == IntArgD(v, GoawkDialect)
 \* a small integer argument (for '*'): its value, or 100000 if not one
 RECURSIVE DigitsVal(_, _)
 DigitsVal(d, acc) == IF d = <<>> THEN acc ELSE DigitsVal(Tail(d), acc * 10 + d[1])
-StarArg(v) ==
-  LET n == IntArg(v)
+StarArg(v, dl) ==
+  LET n == IntArgD(v, dl)
   IN IF n.t # "fin" \/ Len(IntDigits(n)) > 4 THEN 100000
      ELSE IF n.neg THEN 0 - DigitsVal(IntDigits(n), 0) ELSE DigitsVal(IntDigits(n), 0)
 
@@ -111,16 +136,16 @@ StarArg(v) ==
 WithPrec(ds, p) == IF p < 0 THEN (IF ds = <<>> THEN <<D0>> ELSE ds)
                    ELSE IF Len(ds) >= p THEN ds ELSE ZeroB(p - Len(ds)) \o ds
 
-ConvSigned(flags, w, p, v) ==
-  LET n == IntArg(v)
+ConvSigned(flags, w, p, v, dl) ==
+  LET n == IntArgD(v, dl)
       ds == WithPrec(IF n.d = <<>> THEN <<>> ELSE DigBytes(IntDigits(n)), p)
       sign == IF n.neg /\ n.d # <<>> THEN <<MINUS>> ELSE IF PLUS \in flags THEN <<PLUS>> ELSE IF SP \in flags THEN <<SP>> ELSE <<>>
   IN IF n.t # "fin" THEN UnmStr
      ELSE IF D0 \in flags /\ MINUS \notin flags /\ p < 0 THEN ZeroPad(sign, ds, w)
      ELSE Pad(sign \o ds, w, MINUS \in flags)
 
-ConvUnsigned(flags, w, p, verb, v) ==
-  LET n == IntArg(v)
+ConvUnsigned(flags, w, p, verb, v, dl) ==
+  LET n == IntArgD(v, dl)
       u == IF n.neg /\ n.d # <<>> THEN SubDigits(P64, IntDigits(n)) ELSE (IF n.d = <<>> THEN <<>> ELSE IntDigits(n))
       base == CASE verb = c_o -> 8 [] verb \in {c_x, C_X} -> 16 [] OTHER -> 10
       raw == BaseChars(ToBase(u, base), verb = C_X)
@@ -132,8 +157,8 @@ ConvUnsigned(flags, w, p, verb, v) ==
      ELSE IF D0 \in flags /\ MINUS \notin flags /\ p < 0 THEN ZeroPad(prefix, ds, w)
      ELSE Pad(prefix \o ds, w, MINUS \in flags)
 
-ConvFloat(flags, w, p, verb, v) ==
-  LET n == ToNum(v, GoawkDialect)
+ConvFloat(flags, w, p, verb, v, dl) ==
+  LET n == ToNum(v, dl)
       pp == IF p < 0 THEN 6 ELSE p
       alt == HASH \in flags
       body == CASE verb = c_e -> FmtE(n, pp, alt, FALSE) [] verb = C_E -> FmtE(n, pp, alt, TRUE)
@@ -157,52 +182,97 @@ ConvS(flags, w, p, v, chars, cf) ==
   IN IF IsUnmStr(str) THEN UnmStr
      ELSE IF chars /\ ~IsAscii(str) /\ (p >= 0 \/ w > 0) THEN UnmStr
      ELSE Pad(cut, w, MINUS \in flags)
+\* Is the argument a NUMBER for %c ("of a number the character with that code, of a string its first
+\* character")?  A number is; a string constant is not; text from input is exactly when it looks numeric.
+\* The uninitialised value is both (the statement does not say which side %c takes): "open".
+ArgIsNumber(v, dl) ==
+  CASE v.tag = "num" -> "yes"
+    [] v.tag = "str" -> "no"
+    [] v.tag = "strnum" -> (IF LooksNumeric(v.s, dl) THEN "yes" ELSE "no")
+    [] OTHER -> "open"
 \* %c: a number gives the character with that code, a string its first character
-ConvC(flags, w, v, chars) ==
-  LET n == IntArg(v)
+ConvC(flags, w, v, chars, dl) ==
+  LET n == IntArgD(v, dl)
       code == IF n.t = "fin" /\ ~n.neg /\ Len(IntDigits(n)) <= 5 THEN DigitsVal(IntDigits(n), 0) ELSE 0 - 1
-      ch == IF v.tag = "num"
+      isn == ArgIsNumber(v, dl)
+      ch == IF isn = "yes"
             THEN (IF code < 0 THEN UnmStr
                   ELSE IF chars THEN (IF code < 55296 THEN Utf8(code) ELSE UnmStr)
                   ELSE IF code < 256 THEN <<code>> ELSE UnmStr)
-            ELSE IF v.tag = "str" /\ v.s # <<>> THEN (IF chars THEN Chars(v.s)[1] ELSE <<v.s[1]>>)
-            ELSE UnmStr                                   \* empty string, input text: not pinned down
+            ELSE IF isn = "no" /\ v.s # <<>> THEN (IF chars THEN Chars(v.s)[1] ELSE <<v.s[1]>>)
+            ELSE UnmStr                                   \* empty string, uninitialised: not pinned down
   IN IF IsUnmStr(ch) THEN UnmStr
      ELSE IF chars /\ Len(ch) > 1 /\ w > 0 THEN UnmStr
      ELSE Pad(ch, w, MINUS \in flags)
 
 \* one directive with its width w (0: none; negative: left-justify) and precision p (-1: none) resolved
-Convert(d, w0, p, v, chars, cf) ==
+Convert(d, w0, p, v, chars, cf, dl) ==
   LET flags == IF w0 < 0 THEN d.flags \cup {MINUS} ELSE d.flags
       w == IF w0 < 0 THEN 0 - w0 ELSE w0
-  IN CASE d.verb \in IntVerbs   -> ConvSigned(flags, w, p, v)
-       [] d.verb \in UnsVerbs   -> ConvUnsigned(flags, w, p, d.verb, v)
-       [] d.verb \in FloatVerbs -> ConvFloat(flags, w, p, d.verb, v)
+  IN CASE d.verb \in IntVerbs   -> ConvSigned(flags, w, p, v, dl)
+       [] d.verb \in UnsVerbs   -> ConvUnsigned(flags, w, p, d.verb, v, dl)
+       [] d.verb \in FloatVerbs -> ConvFloat(flags, w, p, d.verb, v, dl)
        [] d.verb = c_s          -> ConvS(flags, w, p, v, chars, cf)
-       [] d.verb = c_c          -> IF p >= 0 THEN UnmStr ELSE ConvC(flags, w, v, chars)
+       [] d.verb = c_c          -> IF p >= 0 THEN UnmStr ELSE ConvC(flags, w, v, chars, dl)
 
 \* ------------------------------------------------------------ the whole format
 NeededArgs(d) == 1 + (IF d.wk = "star" THEN 1 ELSE 0) + (IF d.pk = "star" THEN 1 ELSE 0)
-RECURSIVE Emit(_, _, _, _, _, _)
-Emit(items, k, args, a, chars, cf) ==      \* output of items k.. with arguments a..
+RECURSIVE Emit(_, _, _, _, _, _, _)
+Emit(items, k, args, a, chars, cf, dl) ==      \* output of items k.. with arguments a..
   IF k > Len(items) THEN <<>>
-  ELSE IF items[k].k = "lit" THEN <<items[k].ch>> \o Emit(items, k + 1, args, a, chars, cf)
+  ELSE IF items[k].k = "lit" THEN <<items[k].ch>> \o Emit(items, k + 1, args, a, chars, cf, dl)
   ELSE LET d == items[k].d
            a1 == IF d.wk = "star" THEN a + 1 ELSE a
            a2 == IF d.pk = "star" THEN a1 + 1 ELSE a1
-           w == CASE d.wk = "none" -> 0 [] d.wk = "n" -> d.wn [] d.wk = "star" -> StarArg(args[a])
+           w == CASE d.wk = "none" -> 0 [] d.wk = "n" -> d.wn [] d.wk = "star" -> StarArg(args[a], dl)
            pr == CASE d.pk = "none" -> 0 - 1 [] d.pk = "empty" -> 0 [] d.pk = "n" -> d.pn
-                   [] d.pk = "star" -> (LET q == StarArg(args[a1]) IN IF q < 0 THEN 0 - 1 ELSE q)
-           piece == IF w > 1000 \/ w < 0 - 1000 \/ pr > 1000 THEN UnmStr ELSE Convert(d, w, pr, args[a2], chars, cf)
-           rest == Emit(items, k + 1, args, a2 + 1, chars, cf)
+                   [] d.pk = "star" -> (LET q == StarArg(args[a1], dl) IN IF q < 0 THEN 0 - 1 ELSE q)
+           piece == IF w > 1000 \/ w < 0 - 1000 \/ pr > 1000 THEN UnmStr ELSE Convert(d, w, pr, args[a2], chars, cf, dl)
+           rest == Emit(items, k + 1, args, a2 + 1, chars, cf, dl)
        IN IF IsUnmStr(piece) \/ IsUnmStr(rest) THEN UnmStr ELSE piece \o rest
 RECURSIVE TotalArgs(_, _)
 TotalArgs(items, k) == IF k > Len(items) THEN 0
                        ELSE (IF items[k].k = "dir" THEN NeededArgs(items[k].d) ELSE 0) + TotalArgs(items, k + 1)
 
-Format(fmt, args, chars, cf) ==
+FormatD(fmt, args, chars, cf, dl) ==
   LET sc == Scan(fmt)
   IN IF sc.err THEN [err |-> TRUE, out |-> <<>>]
      ELSE IF TotalArgs(sc.items, 1) > Len(args) THEN [err |-> TRUE, out |-> <<>>]
-     ELSE [err |-> FALSE, out |-> Emit(sc.items, 1, args, 1, chars, cf)]
+     ELSE [err |-> FALSE, out |-> Emit(sc.items, 1, args, 1, chars, cf, dl)]
+Format(fmt, args, chars, cf) == FormatD(fmt, args, chars, cf, GoawkDialect)
+
+\* ------------------------------------------------------------ the open forms
+\* An argument on which the dialects differ (0x.., inf/nan spellings, NBSP blanks; in a string constant
+\* as well as in input text): whether it is a number, or which number it is, is left open by POSIX.
+OpenText(str) == \E dl \in Dialects : WholeParse(str, dl) # WholeParse(str, GoawkDialect) \/ PrefixValue(str, dl) # PrefixValue(str, GoawkDialect)
+OpenArg(v) == v.tag \in {"str", "strnum"} /\ OpenText(v.s)
+HasOpenArg(args) == \E j \in 1..Len(args) : OpenArg(args[j])
+\* the results of the other dialects (a set of [err, out]); {} if no argument is open
+FormatAlts(fmt, args, chars, cf) ==
+  IF HasOpenArg(args) THEN {FormatD(fmt, args, chars, cf, dl) : dl \in Dialects} \ {Format(fmt, args, chars, cf)} ELSE {}
+
+\* ------------------------------------------------------------ print
+\* An OFMT (CONVFMT) text the statement gives a meaning to: literal text and exactly one directive, a
+\* floating-point conversion without '*'.  Anything else is undefined (POSIX) and not judged.
+FmtDirs(items) == SelectSeq(items, LAMBDA it : it.k = "dir")
+IsNumFmt(text) ==
+  LET sc == Scan(text)
+  IN /\ ~sc.err
+     /\ LET ds == FmtDirs(sc.items)
+        IN Len(ds) = 1 /\ ds[1].d.verb \in FloatVerbs /\ ds[1].d.wk # "star" /\ ds[1].d.pk # "star"
+\* number -> text under a format text: "integral ones as integers, non-integral ones with OFMT"
+NumToText(n, text) ==
+  IF n.t # "fin" THEN UnmStr
+  ELSE IF InInt64(n) THEN NumToStr(n, [verb |-> "g", prec |-> 6])          \* the format is not consulted
+  ELSE IF ~IsNumFmt(text) THEN UnmStr
+  ELSE Format(text, <<VNum(n)>>, FALSE, [verb |-> "g", prec |-> 6]).out
+\* the text print writes for one argument
+PrintText(v, ofmt) == IF v.tag = "num" THEN NumToText(v.n, ofmt) ELSE v.s
+PrintModes == {"default", "csv", "tsv"}
+PrintLine(args, ofmt, mode, ofs, ors) ==
+  LET texts == [j \in 1..Len(args) |-> PrintText(args[j], ofmt)]
+  IN IF \E j \in 1..Len(texts) : IsUnmStr(texts[j]) THEN UnmStr
+     ELSE CASE mode = "default" -> Join(texts, ofs) \o ors
+            [] mode = "csv"     -> CsvEncode(texts, <<COMMA>>) \o <<LF>>
+            [] mode = "tsv"     -> CsvEncode(texts, <<TAB>>) \o <<LF>>
 =============================================================================
